@@ -62,6 +62,32 @@ WALL_BUDGET = {"quick": 900, "thorough": 3 * 3600}
 LAZIES = (None, True, False)
 
 
+def exc_kind(e):
+    """Exception type name, module-qualified for the many classes that are just called 'error'."""
+    t = type(e)
+    if t.__module__ in ("builtins", "exceptions"):
+        return t.__name__
+    return "%s.%s" % (t.__module__.lstrip("_"), t.__name__)
+
+
+def raising_function(exc):
+    """Innermost frame inside the library under test, as relpath:qualified function name."""
+    where = ""
+    lib = os.path.realpath(REPO_LIB)
+    tb = exc.__traceback__
+    while tb is not None:
+        code = tb.tb_frame.f_code
+        fn = os.path.realpath(code.co_filename)
+        if fn.startswith(lib):
+            where = "%s:%s" % (os.path.relpath(fn, lib), getattr(code, "co_qualname", code.co_name))
+        tb = tb.tb_next
+    return where
+
+
+def fail_exc(acc, clause, exc, case, extra=""):
+    acc.fail(clause, exc_kind(exc), "%s%s" % (short(str(exc), 300), extra), case, raising_function(exc))
+
+
 def _ttlib():
     from fontTools.ttLib import TTLibError
 
@@ -179,7 +205,7 @@ def _read_tables(acc, clause, font, ref, case, stats):
     try:
         tags = list(reader.keys())
     except Exception as e:
-        acc.fail_exc(clause, e, case)
+        fail_exc(acc, clause, e, case)
         return
     if ref is not None:
         want = set(ref)
@@ -198,7 +224,7 @@ def _read_tables(acc, clause, font, ref, case, stats):
             continue
         except Exception as e:
             stats["table-foreign"] += 1
-            acc.fail_exc(clause, e, case, extra=" (reader[%r])" % str(tag))
+            fail_exc(acc, clause, e, case, extra=" (reader[%r])" % str(tag))
             continue
         stats["table-read"] += 1
         if ref is not None:
@@ -234,7 +260,7 @@ def open_case(acc, kind, data, lazy, case, baseline=False):
         acc.fail(clause, "no-result-within-30s", "open", case, innermost_frame(e))
         return "timeout"
     except Exception as e:
-        acc.fail_exc(clause, e, case)
+        fail_exc(acc, clause, e, case)
         return "foreign:%s" % type(e).__name__
     if outcome is None:
         if ref[0] == "fail":
@@ -255,14 +281,14 @@ def open_case(acc, kind, data, lazy, case, baseline=False):
                 except TTLibError:
                     stats["table-ttliberror"] += 1
                 except Exception as e:
-                    acc.fail_exc(clause, e, case, extra=" (fontNumber=%d)" % i)
+                    fail_exc(acc, clause, e, case, extra=" (fontNumber=%d)" % i)
             try:
                 TTFont(io.BytesIO(data), lazy=lazy)
                 acc.fail(clause, "collection-opened-without-fontNumber", "", case)
             except TTLibError:
                 pass
             except Exception as e:
-                acc.fail_exc(clause, e, case, extra=" (fontNumber=-1)")
+                fail_exc(acc, clause, e, case, extra=" (fontNumber=-1)")
         if stats["table-foreign"]:
             outcome = "opened:table-foreign"
         elif stats["table-ttliberror"]:
@@ -350,6 +376,304 @@ def run_garbage_job(acc, job):
 
 
 # ---------------------------------------------------------------------------
+# clause 2: decompile errors ignored -> raw fallback, re-saved unchanged
+
+
+def payload_fault(payload, fault):
+    """fault: ('trunc', n) | ('flip', pos, bit) | ('none',)"""
+    if fault[0] == "none":
+        return payload
+    if fault[0] == "trunc":
+        return payload[: fault[1]]
+    if fault[0] == "flip":
+        pos, bit = fault[1], fault[2]
+        if pos >= len(payload):
+            return None
+        return payload[:pos] + bytes([payload[pos] ^ (1 << bit)]) + payload[pos + 1 :]
+    raise HarnessError("unknown payload fault %r" % (fault,))
+
+
+def _head_mod(tag, b):
+    """head modulo bytes 8-11 (checkSumAdjustment, owned by the container writer)."""
+    if tag == b"head" and len(b) >= 12:
+        return b[:8] + b"\0\0\0\0" + b[12:]
+    return b
+
+
+def fallback_case(acc, relfile, tag, fault, case, do_save_when_decoded=False):
+    """tag: bytes. Returns outcome label."""
+    from fontTools.ttLib import TTFont
+    from fontTools.ttLib.tables.DefaultTable import DefaultTable
+
+    clause = "fallback"
+    ver, tabs = F.sfnt_tables(read_file(relfile))
+    orig = dict(tabs)
+    newp = payload_fault(orig[tag], fault)
+    if newp is None or (newp == orig[tag] and fault[0] != "none"):
+        return "no-change"
+    tabs2 = [(t, (newp if t == tag else p)) for t, p in tabs]
+    inp = dict(tabs2)
+    blob, _ = F.build_sfnt(ver, tabs2)
+    stag = tag.decode("latin-1")
+    # twin A: does decompile raise (eager mode)?
+    raised = None
+    try:
+        with time_limit(60):
+            fA = TTFont(io.BytesIO(blob), lazy=False)
+            fA[stag]
+    except CaseTimeout:
+        acc.inconclusive += 1
+        return "timeout"
+    except Exception as e:
+        raised = e
+    # twin B: errors ignored
+    try:
+        with time_limit(60):
+            fB = TTFont(io.BytesIO(blob), ignoreDecompileErrors=True, lazy=False, recalcTimestamp=False)
+            t = fB[stag]
+    except CaseTimeout:
+        acc.inconclusive += 1
+        return "timeout"
+    except Exception as e:
+        fail_exc(acc, clause + ":access", e, case, extra=" (font[%r] with ignoreDecompileErrors=True; strict twin: %s)" % (stag, exc_kind(raised) if raised else "decodes"))
+        return "access-raised"
+    fell = hasattr(t, "ERROR")
+    if raised is None:
+        if fell:
+            acc.label("fallback:info:fell-back-though-strict-twin-decodes")
+        elif not do_save_when_decoded:
+            return "decoded"
+    else:
+        if not fell or type(t) is not DefaultTable:
+            acc.fail(clause + ":keep", "not-a-raw-DefaultTable", "decompile raised %s but font[%r] is %s (ERROR attr: %s)" % (exc_kind(raised), stag, type(t).__name__, fell), case)
+            return "not-kept"
+        if getattr(t, "data", None) != newp:
+            acc.fail(clause + ":keep", "payload-not-kept", "DefaultTable.data has %s bytes, payload has %d" % (len(t.data) if hasattr(t, "data") else "no", len(newp)), case)
+            return "not-kept"
+    loaded_before = set(_tagb(k) for k in fB.tables.keys() if k != "GlyphOrder")
+    fellback = set(k for k in loaded_before if hasattr(fB.tables[k.decode("latin-1")], "ERROR"))
+    out = io.BytesIO()
+    try:
+        with time_limit(120):
+            fB.save(out)
+    except CaseTimeout:
+        acc.inconclusive += 1
+        return "timeout"
+    except Exception as e:
+        if fell:
+            fail_exc(acc, clause + ":resave", e, case, extra=" (save() after '%s' fell back to raw bytes)" % stag)
+            return "fellback:save-raised"
+        acc.label("fallback:info:decoded-but-save-raises:%s" % exc_kind(e))
+        return "decoded:save-raised"
+    if not fell:
+        return "decoded:saved"
+    try:
+        _, _, ents = F.parse_sfnt_dir(out.getvalue())
+        got = F.sfnt_slices(out.getvalue(), ents)
+    except (F.RefError, struct.error) as e:
+        acc.fail(clause + ":resave", "saved-file-unparseable", str(e), case)
+        return "fellback:bad-output"
+    if set(got) != set(inp):
+        acc.fail(clause + ":resave", "table-set-changed", "saved %r, input %r" % (sorted(set(got) - set(inp)), sorted(set(inp) - set(got))), case)
+    bad_self = []
+    bad_other = []
+    derived = 0
+    for tg, p in inp.items():
+        g = got.get(tg)
+        if g is None:
+            continue
+        if tg in fellback or tg not in loaded_before:
+            short_head = tg == b"head" and len(p) < 12
+            if (g != p) if short_head else (_head_mod(tg, g) != _head_mod(tg, p)):
+                (bad_self if tg == tag else bad_other).append((tg, len(g), len(p)))
+        else:
+            derived += 1
+    if derived:
+        acc.label("fallback:info:loaded-dependencies-not-compared", derived)
+    short_head_in_play = any(len(p) < 12 for tg, p in inp.items() if tg == b"head")
+    if bad_self:
+        acc.fail(clause + ":resave", "fallback-table-bytes-changed", "%r" % bad_self, case)
+    if bad_other:
+        kind = "short-head-checksum-write-spills-into-other-tables" if short_head_in_play else "untouched-table-bytes-changed"
+        acc.fail(clause + ":resave", kind, "tables changed although never loaded or kept raw: %r" % bad_other[:4], case)
+    return "fellback:resaved-identically" if not (bad_self or bad_other) else "fellback:changed"
+
+
+def fallback_faults(payload, rnd, nflips):
+    fs = []
+    n = len(payload)
+    seen = set()
+    for i in range(16):
+        ln = (n * i) // 16
+        if ln not in seen and ln < n:
+            seen.add(ln)
+            fs.append(("trunc", ln))
+    for _ in range(nflips if n else 0):
+        r = rnd.random()
+        if r < 0.5:
+            pos = rnd.randrange(min(n, 32))
+        elif r < 0.75:
+            pos = rnd.randrange(min(n, 256))
+        else:
+            pos = rnd.randrange(n)
+        bit = rnd.choice([7, 7, 6, 0, 1, 2, 3, 4, 5])
+        f = ("flip", pos, bit)
+        if f not in seen:
+            seen.add(f)
+            fs.append(f)
+    return fs
+
+
+def run_fallback_job(acc, job):
+    relfile = job["file"]
+    ver, tabs = F.sfnt_tables(read_file(relfile))
+    rnd = random.Random(job["seed"])
+    n = 0
+    for tag, payload in tabs:
+        if job.get("tags") and tag.decode("latin-1") not in job["tags"]:
+            continue
+        for fault in [("none",)] + fallback_faults(payload, rnd, job["nflips"]):
+            n += 1
+            case = {"space": "fallback", "file": relfile, "tag": tag, "fault": list(fault)}
+            out = fallback_case(acc, relfile, tag, fault, case, do_save_when_decoded=(n % 5 == 0 or fault[0] == "none"))
+            if out == "no-change":
+                continue
+            if fault[0] == "none" and not out.startswith("decoded"):
+                acc.label("fallback:info:unfaulted-table-does-not-decode:%s" % tag.decode("latin-1"))
+            acc.case((relfile, tag, fault), nontrivial=out.startswith(("fellback", "not-kept", "access-raised")), labels=["fallback:%s" % fault[0], "fallback:outcome:%s" % out] + (["fallback:fell:%s" % tag.decode("latin-1")] if out.startswith("fellback") else []), sample=case if out.startswith("fellback") and n % 40 == 0 else None)
+
+
+# ---------------------------------------------------------------------------
+# clause 4: a save that fails leaves an existing destination untouched
+
+
+class CompileBoom(Exception):
+    pass
+
+
+def _boom(*a, **k):
+    raise CompileBoom("compile made to fail by the harness")
+
+
+EXISTING = b"EXISTING DESTINATION FILE - MUST SURVIVE A FAILED SAVE\n" * 7
+
+
+def failsave_case(acc, case):
+    """case: dict(space='failsave', api='TTFont.save'|'TTCollection.save'|'ttx-o'|'saveXML', file=rel, tag=str, flavor=None|'woff'|'woff2', member=int)"""
+    from fontTools.ttLib import TTCollection, TTFont
+
+    api = case["api"]
+    clause = "failsave:%s" % api
+    tag = case["tag"]
+    data = container_bytes(dict(file=case["file"], wrap=case.get("wrap")))
+    with scratch_dir("c20fs") as d:
+        dest = os.path.join(d, "dest.bin")
+        with open(dest, "wb") as f:
+            f.write(EXISTING)
+        raised = None
+        try:
+            with time_limit(120):
+                if api == "TTFont.save":
+                    font = TTFont(io.BytesIO(data), lazy=case.get("lazy"))
+                    font.flavor = case["flavor"]
+                    font[tag].compile = _boom
+                    font.save(dest)
+                elif api == "TTCollection.save":
+                    coll = TTCollection(io.BytesIO(data))
+                    coll.fonts[case["member"]][tag].compile = _boom
+                    coll.save(dest)
+                elif api == "ttx-o":
+                    from fontTools import ttx
+                    from fontTools.ttLib import getTableClass
+
+                    src = os.path.join(d, "in.ttx")
+                    font = TTFont(io.BytesIO(data))
+                    font.saveXML(src)
+                    cls = getTableClass(tag)
+                    old = cls.__dict__.get("compile")
+                    cls.compile = _boom
+                    try:
+                        try:
+                            ttx.main(["-q", "-o", dest] + (["--flavor", case["flavor"]] if case["flavor"] else []) + [src])
+                        except SystemExit as e:
+                            if e.code not in (0, None):
+                                raised = e
+                    finally:
+                        if old is not None:
+                            cls.compile = old
+                        else:
+                            del cls.compile
+                else:
+                    raise HarnessError("unknown api %r" % api)
+        except CaseTimeout:
+            acc.inconclusive += 1
+            return "timeout"
+        except HarnessError:
+            raise
+        except Exception as e:
+            raised = e
+        with open(dest, "rb") as f:
+            after = f.read()
+        if raised is None:
+            return "save-succeeded(compile-not-called)"
+        if after != EXISTING:
+            what = "emptied" if not after else ("truncated/overwritten with %d bytes" % len(after))
+            acc.fail(clause, "destination-clobbered", "save raised %s but the existing destination was %s (flavor=%s, table %s)" % (exc_kind(raised) if not isinstance(raised, SystemExit) else "SystemExit", what, case.get("flavor"), tag), case)
+            return "failed:destination-clobbered"
+        return "failed:destination-untouched"
+
+
+def run_failsave_job(acc, job):
+    relfile = job["file"]
+    data = container_bytes(dict(file=relfile, wrap=job.get("wrap")))
+    api = job["api"]
+    if api == "TTCollection.save":
+        _, offs = F.parse_ttc(data)
+        members = []
+        for i, o in enumerate(offs):
+            _, _, ents = F.parse_sfnt_dir(data, o)
+            members += [(i, e[0].decode("latin-1")) for e in ents]
+        cases = [dict(space="failsave", api=api, file=relfile, wrap=job.get("wrap"), tag=t, member=i, flavor=None) for i, t in members]
+    else:
+        _, _, ents = F.parse_sfnt_dir(data)
+        tags = [e[0].decode("latin-1") for e in ents]
+        cases = []
+        for t in tags:
+            for fl in job["flavors"]:
+                for lazy in job.get("lazies", [None]):
+                    cases.append(dict(space="failsave", api=api, file=relfile, tag=t, flavor=fl, lazy=lazy))
+    for c in cases:
+        out = failsave_case(acc, c)
+        acc.case(c, nontrivial=out.startswith("failed"), labels=["failsave:%s:%s" % (api, c.get("flavor")), "failsave:outcome:%s" % out], sample=c if c["tag"] == "hmtx" else None)
+
+
+def run_savexml_info_job(acc, job):
+    """Informational only (see ASSUMPTIONS): TTFont.saveXML(path) when a table's toXML raises."""
+    from fontTools.ttLib import TTFont
+
+    data = read_file(job["file"])
+    _, _, ents = F.parse_sfnt_dir(data)
+    for e in ents:
+        tag = e[0].decode("latin-1")
+        with scratch_dir("c20sx") as d:
+            dest = os.path.join(d, "dest.ttx")
+            with open(dest, "wb") as f:
+                f.write(EXISTING)
+            font = TTFont(io.BytesIO(data))
+            font[tag].toXML = _boom
+            try:
+                font.saveXML(dest)
+                out = "succeeded"
+            except CompileBoom:
+                with open(dest, "rb") as f:
+                    out = "untouched" if f.read() == EXISTING else "clobbered"
+            except Exception as ex:
+                out = "other:%s" % exc_kind(ex)
+        acc.label("failsave:info:saveXML-toXML-raises:destination-%s" % out)
+        acc.case(("savexml", job["file"], tag), nontrivial=(out != "succeeded"), labels=["failsave:saveXML(informational)"])
+
+
+# ---------------------------------------------------------------------------
 # jobs
 
 
@@ -384,6 +708,30 @@ def jobs(tier, seed):
             J.append(dict(kind="open", name="open-%03d-%s%s" % (n, os.path.basename(b), "+" + w if w else ""), src=src, ckind=ckind, tier=tier, small=small, stride=stride, phase=subseed(seed, "ph", b, w) % 97))
     for i in range(8 if thorough else 2):
         J.append(dict(kind="garbage", name="garbage-%d" % i, n=(20000 if thorough else 1500), seed=subseed(seed, "garbage", i)))
+    # -- fallback
+    sf = [b for b in rest if F.kind_of(read_file(b)) == "sfnt" and (thorough or len(read_file(b)) < 40000)]
+    sf += [b for b in (aots if thorough else rnd.sample(aots, 4))]
+    for b in sf:
+        big = len(read_file(b)) > 40000
+        nfl = (120 if thorough else 10) if not big else 8
+        if big:
+            _, tabs = F.sfnt_tables(read_file(b))
+            for t, _p in tabs:
+                J.append(dict(kind="fallback", name="fallback-%s-%s" % (os.path.basename(b), t.decode("latin-1").strip()), file=b, nflips=nfl, tags=[t.decode("latin-1")], seed=subseed(seed, "fb", b, t)))
+        else:
+            J.append(dict(kind="fallback", name="fallback-%s" % os.path.basename(b), file=b, nflips=nfl, seed=subseed(seed, "fb", b)))
+    # -- failsave
+    fs_fonts = ["ttx/data/TestTTF.ttf", "ttx/data/TestOTF.otf", "ttLib/data/I.ttf", "ttLib/tables/data/NotoSans-VF-cubic.subset.ttf"]
+    if thorough:
+        fs_fonts = [b for b in rest if F.kind_of(read_file(b)) == "sfnt" and len(read_file(b)) < 40000] + rnd.sample(aots, 10)
+    for b in fs_fonts:
+        J.append(dict(kind="failsave", name="failsave-save-%s" % os.path.basename(b), api="TTFont.save", file=b, flavors=[None, "woff", "woff2"]))
+    for b in fs_fonts[: (8 if thorough else 2)]:
+        J.append(dict(kind="failsave", name="failsave-ttx-%s" % os.path.basename(b), api="ttx-o", file=b, flavors=[None, "woff"] if not thorough else [None, "woff", "woff2"]))
+    for b in ["ttx/data/TestTTC.ttc", "ttx/data/TestTTCv2.ttc"]:
+        J.append(dict(kind="failsave", name="failsave-ttc-%s" % os.path.basename(b), api="TTCollection.save", file=b))
+    J.append(dict(kind="failsave", name="failsave-ttc-built", api="TTCollection.save", file="ttx/data/TestOTF.otf", wrap="ttc"))
+    J.append(dict(kind="savexml-info", name="savexml-info", file="ttx/data/TestTTF.ttf"))
     return J
 
 
@@ -397,6 +745,12 @@ def run_job(job):
         run_open_job(acc, job)
     elif k == "garbage":
         run_garbage_job(acc, job)
+    elif k == "fallback":
+        run_fallback_job(acc, job)
+    elif k == "failsave":
+        run_failsave_job(acc, job)
+    elif k == "savexml-info":
+        run_savexml_info_job(acc, job)
     else:
         raise HarnessError("unknown job kind %r" % k)
     return acc
@@ -415,6 +769,10 @@ def replay(case):
         else:
             data = apply_fault(container_bytes(case["src"]), fault)
         open_case(acc, case["ckind"], data, case["lazy"], case, baseline=(fault[0] == "none"))
+    elif sp == "fallback":
+        fallback_case(acc, case["file"], bytes(case["tag"]), tuple(case["fault"]), case, do_save_when_decoded=True)
+    elif sp == "failsave":
+        failsave_case(acc, case)
     else:
         raise HarnessError("unknown space %r" % sp)
     return acc.failures
